@@ -1,5 +1,6 @@
 import GoSSE.Proofs.ClientRegistry
 import GoSSE.Proofs.GenEquivDispatch
+import GoSSE.Proofs.GenEquivRegistry
 /-!
 # C13 — each event reaches exactly the callbacks subscribed to its type
 
@@ -220,6 +221,40 @@ theorem translated_remover_all (fuel : Nat) (c : Gen.Connection) (id : Int) :
   intro k
   rw [unsubAll_lookup, unsubAll_lookup]
   by_cases h : k = id <;> simp [h]
+
+open GoSSE.GoRT GoSSE.GenEquiv in
+/-- **The property, for the translated source, for every script.** Run any script of subscribe / subscribe-to-all /
+remover calls (repeated, stale, of any earlier subscription) / dispatched events through the **translated** functions
+(`runM`: `Gen.Connection_addSubscriber`, `…ToAll`, the two translated removers, `Gen.Connection_dispatch`, the callback of
+the `k`-th subscribe operation being the number `k`), the two `range` statements of `dispatch` visiting their maps in any
+order Go may produce (`Covers`: every key once). Then nothing faults, and
+
+* every dispatched event was handed to a permutation of the specification's live subscriptions matching its type — each
+  exactly once, nobody else (`LogsPerm … (specScript ops).log`);
+* the registry a reader sees is exactly the specification's list of live subscriptions: the callback of the `j`-th
+  subscribe operation sits under id `j` of its own type (or of the all-set) if and only if it is live — so a removed
+  callback is in no slot any more (it is never invoked again), a remover that runs twice or after its type was
+  subscribed to again touches nothing else, and ids are never reused. -/
+theorem translated_scripts_refine_spec (ord : Orders) (hc : Covers ord) (ops : List ROp) :
+    ∃ s : GState, runM ord ops GState.init = .ok s ∧
+      GoSSE.Proofs.ClientRegistry.LogsPerm s.log (specScript ops).log ∧
+      (∀ ty (k : Int) (cb : Nat), mapGet (typed s.conn ty) k = some cb ↔
+        ∃ j : Nat, (j, some ty) ∈ (specScript ops).live ∧ k = (j : Int) ∧ cb = j) ∧
+      (∀ (k : Int) (cb : Nat), mapGet s.conn.callbacksAll k = some cb ↔
+        ∃ j : Nat, (j, none) ∈ (specScript ops).live ∧ k = (j : Int) ∧ cb = j) ∧
+      s.conn.callbackID = ((specScript ops).count : Int) := by
+  have h := run_refines ord hc ops
+  exact ⟨_, runM_eq ord ops GState.init, h.2, h.1.typedSlots, h.1.allSlots, h.1.cnt⟩
+
+/-- … and the hypothesis on the orders is satisfiable: the keys in list order, duplicates dropped -/
+theorem covering_orders_exist : GenEquiv.Covers GenEquiv.canonOrders := GenEquiv.covers_canon
+
+/-- non-vacuity of the script theorem: the stale-remover script of the example above, through the translated text with the
+canonical orders, produces the specification's log itself -/
+example :
+    (GenEquiv.runM GenEquiv.canonOrders [.sub [97], .unsub 0, .sub [97], .unsub 0, .subAll, .event [97], .event []]
+      GenEquiv.GState.init).map (·.log) = .ok [[1, 2], [2]] := by
+  rfl
 
 /-- non-vacuity, through the translated text itself: subscribe 7 to "a", 8 to all, 9 to "a"; unsubscribe the first (twice);
 an event of type "a" visited in the order 2, 0, 1 is handed to 9 and then to 8 — and nobody else -/
